@@ -851,10 +851,19 @@ fn scan_files(ctx: &GroupCtx<'_>) -> Vec<Vec<FileInfo>> {
     walk.on_visit = spinner_tick;
     // The report file has been created already, and it is not one of the files to report.
     let output = config.output.as_ref().map(|p| Path::from(p).canonicalize());
+    // It may have other names: hard links, or symbolic links that are reported themselves.
+    let output_id = config.output.as_ref().and_then(|p| {
+        FileId::new(&Path::from(p))
+            .map_err(|e| {
+                ctx.log
+                    .warn(format!("Cannot identify the report file: {e}"))
+            })
+            .ok()
+    });
     // The same holds for the file that the standard output has been redirected to.
     let redirected_output = match config.output {
         None => stdout_file_id(),
-        Some(_) => None,
+        Some(_) => output_id,
     };
     walk.run(ctx.config.input_paths_logged(Some(ctx.log)), |path| {
         file_info_or_log_err(path, &ctx.devices, ctx.log)
